@@ -16,7 +16,10 @@ def marshalInner (i : Inner) : String :=
 /-- the real state-root function: sha256( ‖_{accts} (addr ‖ json(acct)? ‖ sha256(‖ k‖v)) ‖ prevRoot ) -/
 def realH (p : RootPre) : String :=
   let body := p.accts.foldl (fun (b : ByteArray) a =>
-    let sd := (stateDataText a.stateData).toUTF8
+    -- a key written `%<hex>` in the op language stands for those raw bytes (EVM storage slots are not text); every such key
+    -- of the generators starts with the byte 0x25 ('%'), so the order of the tokens is the order of the bytes
+    let sd := a.stateData.foldl (fun (x : ByteArray) kv =>
+      x ++ (if kv.1.startsWith "%" then fromHex (kv.1.drop 1).toString else kv.1.toUTF8) ++ (kv.2.getD "").toUTF8) ByteArray.empty
     let b1 := b ++ addrBytes a.addr
     let b2 := match a.acct with
       | some i => b1 ++ (marshalInner i).toUTF8
